@@ -403,7 +403,9 @@ def run(ctx):
         model_expect.append(("vocab", c, exp))
 
     # (2) the tool: same orders, mixed orders, single model
-    cases = [("same", gen_case(rng, False)) for _ in range(ctx.pick(40, 700))] + \
+    cases = corpus_cases()
+    ctx.count("corpus_cases", len(cases))
+    cases += [("same", gen_case(rng, False)) for _ in range(ctx.pick(40, 700))] + \
             [("mixed", gen_case(rng, True)) for _ in range(ctx.pick(12, 200))] + \
             [("single", gen_single(rng)) for _ in range(ctx.pick(6, 100))]
     kinds = {}
@@ -494,6 +496,19 @@ def run(ctx):
         ctx.report_proof(pres)
     ctx.coverage["spec_oracle_failures"] = len(spec_fail)
     ctx.coverage["correspondence_mismatches"] = len(mismatches)
+
+
+def corpus_cases():
+    import json
+    p = os.path.join(vlib.ROOT, "corpus", "C13", "cases.jsonl")
+    out = []
+    if os.path.exists(p):
+        for l in open(p):
+            l = l.strip()
+            if l and not l.startswith("#"):
+                o = json.loads(l)
+                out.append((o["kind"], undump(o["case"])))
+    return out
 
 
 def is_known(ctx, sig):
